@@ -24,7 +24,7 @@ func init() {
 			"non-trivial = the text has >= 3 JSON tokens and (for mutants) differs from its seed; distinct by text hash",
 		Assumptions: []string{"encoding/json is used only to cross-check the recogniser and to tokenise valid texts", "math/big decimal parsing at 512 bits defines 'full decimal precision' (the precision of the HCL information model as implemented by cty)", "hclsyntax.ParseTemplate defines what a template denotes (C01 monitors it)"},
 		Quick:       Plan{Batches: 16, PerBatch: 1500, MinNonTrivial: 9000},
-		Thorough:    Plan{Batches: 64, PerBatch: 40000, MinNonTrivial: 800000},
+		Thorough:    Plan{Batches: 64, PerBatch: 20000, MinNonTrivial: 400000},
 		Case:        c13Case,
 	})
 }
